@@ -13,6 +13,21 @@ Definition tnames (t : ntree) : list N :=
   match t with NBad => [] | NT _ _ _ _ outs _ => nz (map vd_name outs) end.
 Definition aname (a : atree) : N := match a with TPlain k _ _ => k | TGraph k _ => k | TGraphs k _ => k end.
 
+Lemma aproto_name_t2p a : aproto_name (t2p_a a) = aname a.
+Proof. destruct a; reflexivity. Qed.
+Lemma aproto_names_t2p : forall al, aproto_names (t2p_as al) = anames al.
+Proof.
+  induction al as [|a r IH]; cbn [t2p_as aproto_names anames]; [reflexivity|].
+  rewrite IH, aproto_name_t2p. destruct a; reflexivity.
+Qed.
+(* attribute names are duplicate-free: no attribute of a t2p proto is skipped *)
+Lemma attr_not_repeated a r : nodup_N (anames (TACons a r)) = true ->
+  existsb (N.eqb (aproto_name (t2p_a a))) (aproto_names (t2p_as r)) = false /\ nodup_N (anames r) = true.
+Proof.
+  cbn [anames nodup_N]. intros H. apply andb_prop in H. destruct H as (A & B). apply negb_true_iff in A.
+  rewrite aproto_name_t2p, aproto_names_t2p. split; auto; destruct a; exact A.
+Qed.
+
 Definition PG (T : gtree) : Prop := forall nsc sc h,
   chain_ok sc -> SC h sc -> map nms sc = nsc -> wf_g nsc T = true ->
   exists h' gid, deser_graph (t2p_g T) sc h = Ok (h', gid) /\ nested h h' /\ ngr h' = S gid /\
@@ -26,7 +41,7 @@ Definition PA (a : atree) : Prop := forall nsc sc h,
   exists h' x, deser_attr (t2p_a a) sc h = Ok (h', x) /\ nested h h' /\ real_a (nv h) h' (map ids sc) x a /\
                fst x = aname a /\ depth_a a + ngr h <= ngr h'.
 Definition PAs (al : atrees) : Prop := forall nsc sc h,
-  chain_ok sc -> SC h sc -> map nms sc = nsc -> wf_as nsc al = true ->
+  chain_ok sc -> SC h sc -> map nms sc = nsc -> nodup_N (anames al) = true -> wf_as nsc al = true ->
   exists h' l, deser_attrs (t2p_as al) sc h = Ok (h', l) /\ nested h h' /\ real_as (nv h) h' (map ids sc) l al /\
                map fst l = anames al /\ depth_as al + ngr h <= ngr h'.
 Definition PN (t : ntree) : Prop := forall b I nsc outn sc tbl vis h lo,
@@ -97,16 +112,17 @@ Qed.
 
 Lemma PAs_nil : PAs TANil.
 Proof.
-  intros nsc sc h Hc HS Hn Hwf. exists h, []. cbn. csplit; auto; try apply nested_refl.
+  intros nsc sc h Hc HS Hn Hnd Hwf. exists h, []. cbn. csplit; auto; try apply nested_refl.
 Qed.
 
 Lemma PAs_cons a r : PA a -> PAs r -> PAs (TACons a r).
 Proof.
-  intros IHa IHr nsc sc h Hc HS Hn Hwf. cbn [wf_as] in Hwf. apply andb_prop in Hwf. destruct Hwf as (W1 & W2).
+  intros IHa IHr nsc sc h Hc HS Hn Hnd Hwf. cbn [wf_as] in Hwf. apply andb_prop in Hwf. destruct Hwf as (W1 & W2).
+  destruct (attr_not_repeated _ _ Hnd) as (Hex & Hnd2).
   destruct (IHa nsc sc h) as (h1 & x & E1 & N1 & R1 & F1 & D1); auto.
   destruct (IHr nsc sc h1) as (h2 & l & E2 & N2 & R2 & F2 & D2); auto.
   { eapply SC_ext; eauto. apply nested_ext; auto. }
-  exists h2, (x :: l). cbn [t2p_as deser_attrs]. rewrite E1, E2. csplit; auto.
+  exists h2, (x :: l). cbn [t2p_as deser_attrs]. rewrite Hex, E1, E2. csplit; auto.
   - eapply nested_trans'; eauto.
   - cbn [real_as]. split.
     + destruct real_stable as (_ & _ & _ & _ & Sa & _). eapply Sa; [|exact R1]. apply nested_keeps; auto.
